@@ -3,7 +3,6 @@ FUNC_UNITS = ['asmjit/core/func.cpp', 'asmjit/core/archtraits.cpp', 'asmjit/core
 UNITS = [
     Unit('classify', harness=['h_classify.cpp'], repo_units=FUNC_UNITS),
     Unit('argmove', harness=['h_argmove.cpp'], repo_units=['asmjit/x86/x86emithelper.cpp', 'asmjit/core/archtraits.cpp', 'asmjit/core/type.cpp', 'asmjit/core/environment.cpp']),
-    Unit('shuffle', harness=['h_shuffle.cpp'], repo_units=['asmjit/core/emithelper.cpp', 'asmjit/core/funcargscontext.cpp', 'asmjit/core/func.cpp', 'asmjit/core/archtraits.cpp', 'asmjit/core/type.cpp', 'asmjit/core/environment.cpp'], ubsan=False, debug_asserts=False),
 ]
 TYPES_X86 = 'every argument and the return type symbolic over {intptr, uintptr, i8..u64, f32, f64, mmx64, mask8..64, all 10 element kinds of vec128/256/512}'
 TYPES_A64 = 'every argument and the return type symbolic over {intptr, uintptr, i8..u64, f32, f64, all 10 element kinds of vec128}'
@@ -19,7 +18,6 @@ HARNESSES = [
     HC('h_apple64_12', 12, 'Apple arm64 (Darwin ABI)'),
     HC('h_light32_8', 8, 'light-call 2-4 on x86-32 (AsmJit only: internal consistency)'),
     HC('h_light64_8', 8, 'light-call 2-4 on x86-64 (AsmJit only: internal consistency)'),
-    Harness('shuffle', 'h_shuffle_x64_gp2', unwind=8, bounds='tbd', mem_gb=8, timeout=900, tiers=('thorough',)),
     Harness('argmove', 'h_argmove_x64_int', unwind=6, bounds='x86-64: destination and source type over i8..u64 (64 pairs), source in any GP register or on the stack, any destination register, SSE/AVX mode', mem_gb=4, timeout=600),
     Harness('argmove', 'h_argmove_x64_fp', unwind=6, bounds='x86-64: destination type float32x1, float64x1, float32x4; source type float32, float64, float32x1, float64x1, float32x4; source in any xmm register or on the stack; SSE/AVX mode; the whole harness lies in the region of known finding C06J (no native twin comparison: the real code evaluates ctz(0), undefined behaviour)', known='C06J', validate_runs=0, mem_gb=4, timeout=600),
     Harness('argmove', 'h_argmove_x64_kf_C06I', unwind=6, bounds='region of known finding C06I (float32 <-> float64 conversion)', known='C06I', validate_runs=0, mem_gb=4, timeout=600),
@@ -41,5 +39,12 @@ HARNESSES = [
     HC('h_apple64_20', 20, 'as h_apple64_12', tiers=('thorough',), mem=8, timeout=2400),
 ]
 EXPLANATION = 'bounded symbolic execution (CBMC) of the real FuncDetail::init / emit_args_assignment compiled from /repo; oracle: an independent reference of the platform ABIs and a token machine, both in the harness'
-OUTSIDE = ['more than 20 arguments (API limit 32)', 'float80, mmx32, vec32/vec64 type ids', 'thiscall outside Windows (AsmJit documents it as cdecl)', 'values received by real callees on foreign ABIs']
-ASSUMPTIONS = []
+OUTSIDE = ['more than 20 arguments (API limit 32)', 'float80, mmx32, vec32/vec64 argument type ids', 'thiscall outside Windows (AsmJit documents it as cdecl)',
+           'x86-32: 64-bit integers while argument registers remain, vector arguments beyond the register ones, MMX locations (vendors disagree: consistency only)',
+           'values received by real callees on foreign ABIs',
+           'H2 parallel-move solver (BaseEmitHelper::emit_args_assignment + FuncArgsContext on a token machine): h_shuffle.cpp is written but NOT registered - '
+           'the encoded program does not fit the resource caps (2 arguments, concrete registers: > 750 k SSA steps, > 8 GB during propositional reduction; cause: every access to '
+           'FuncArgsContext::_work_data[group] / _phys_to_var_id[id] goes through a pointer with a symbolic offset into a 1.4 KB object, which CBMC turns into whole-object byte updates)',
+           'H3 typed move selection for AArch64, and for x86 destinations other than integer and float/vector registers (mmx, mask)']
+ASSUMPTIONS = ['h_argmove_*: BaseEmitter::_emitI(id, o0, o1) is defined in the harness as a recording emitter (the object is zeroed raw storage with environment and GP signature set)',
+               'h_win64_kf_D7, h_argmove_x64_fp, h_argmove_x64_kf_C06I run without native twin comparison: inside those known-finding regions the real code has undefined behaviour (out-of-bounds read, ctz(0))']
